@@ -341,6 +341,8 @@ def gen_cases(ctx, n):
             # level-0/1 encodings in treegen carry times through DOS stamps only for level 1 with ext; keep Unix-style entries
             if ents:
                 break
+        long_paths = False
+        want_long = r.random() < 0.1 or i < 4          # the first four cases of every run: long paths + wildcard arguments
         for e in ents:
             if e.kind == "dir" and e.level == 0:
                 e.level = 2          # level-0 directory entries cannot carry a trailing separator portably
@@ -364,10 +366,24 @@ def gen_cases(ctx, n):
                 e.method, e.level, e.os_type = b"-lh7-", 1, 0x20
             if e.level == 0 and e.perms is None:
                 e.level = 1          # a level-0 header carries the Unix time only inside the Unix area (with permissions)
+        if want_long and not implicit and not any(getattr(e, "os_type", None) == 0x20 for e in ents):
+            # LONG stored paths: the whole tree below two directories with long names, so that the members' paths straddle 255 / 256 /
+            # 257 characters and more (what a fixed path buffer in the tool would cut); level-2 headers carry them
+            d1 = bytes(r.choice(b"abcdefghijklmnopqrstuvwxyz0123456789") for _ in range(r.choice([60, 100, 120]) if i >= 4 else 120))
+            d2 = bytes(r.choice(b"abcdefghijklmnopqrstuvwxyz0123456789") for _ in range(r.choice([90, 120, 124, 125, 126, 127, 128, 130]) if i >= 4 else 124 + i))
+            chain = [T.Entry("dir", d1 + b"/", perms=0o40755, mtime=1_000_000_123, level=2),
+                     T.Entry("dir", d1 + b"/" + d2 + b"/", perms=0o40750, mtime=1_000_000_456, level=2)]
+            for e in ents:
+                e.path = d1 + b"/" + d2 + b"/" + e.path
+                e.level = 2
+            ents = chain + ents
+            long_paths = True
         k = r.random()
         opts, filters, pre, answers, cmd = [], [], [], b"", "x"
         if implicit:
             k = r.random() * 0.25          # plain extraction: the implicit-parents theorem's domain
+        elif long_paths and (i < 4 or r.random() < 0.7):
+            k = 0.6 + r.random() * 0.15    # wildcard arguments on long stored paths
         if k < 0.25:
             opts = [r.choice(["f", "q", "q0", "q1", "q2"])]
         elif k < 0.35:
